@@ -22,6 +22,7 @@ type PropConfig struct {
 	Packages []string `json:"packages"`
 	Note     string   `json:"note,omitempty"`
 	Bounded  []string `json:"bounded,omitempty"`
+	TimeoutS int      `json:"timeout_s,omitempty"` // per-obligation solver timeout of the quick tier (default 10)
 }
 
 type Baseline struct {
@@ -202,8 +203,14 @@ func checkMain(args []string) int {
 		return 2
 	}
 	timeoutS := 10
+	if cfg.TimeoutS > 0 {
+		timeoutS = cfg.TimeoutS
+	}
 	if *tier == "thorough" {
 		timeoutS = 60
+		if 2*cfg.TimeoutS > timeoutS {
+			timeoutS = 2 * cfg.TimeoutS
+		}
 	}
 	tmp, _ := os.MkdirTemp("", "gcv-"+id+"-")
 	defer os.RemoveAll(tmp)
